@@ -161,6 +161,8 @@ def run(prop, tier, seed, replay, work, t0):
     for pr in problems:
         broken.append({'what': 'implementation driver %s' % pr[0], 'detail': json.dumps(pr[1:])[:1500],
                        'script': pr[3] if len(pr) > 3 else None})
+    hangs = [c for c in harness_errors if 'hang' in c.get('tags', [])]
+    harness_errors = [c for c in harness_errors if 'hang' not in c.get('tags', [])]
     for c in harness_errors:
         broken.append({'what': 'implementation raised outside the modelled observations',
                        'detail': c.get('error', '')[-800:], 'script': c.get('script')})
@@ -196,6 +198,15 @@ def run(prop, tier, seed, replay, work, t0):
             rep = cs[0]
         path = write_replay(prop, rep, 'spec-violation-on-implementation', rep['rverdict'],
                             {'occurrences': len(cs)})
+        lines.append('VIOLATION property=%s replay=%s' % (prop, os.path.relpath(path, lib.VERIF)))
+        n_unknown += 1
+        exit_code = 1
+    # a script on which the real code does not terminate (the model is total and predicts an outcome):
+    # a concrete failing input for any property that promises an outcome
+    if hangs:
+        hangs.sort(key=lambda c: len(json.dumps(c['script'])))
+        path = write_replay(prop, hangs[0], 'implementation-does-not-terminate', hangs[0].get('error', '')[:300],
+                            {'occurrences': len(hangs)})
         lines.append('VIOLATION property=%s replay=%s' % (prop, os.path.relpath(path, lib.VERIF)))
         n_unknown += 1
         exit_code = 1
@@ -276,6 +287,7 @@ def run(prop, tier, seed, replay, work, t0):
         'generator_distribution': tagdist,
         'exhaustive': bool(hasattr(mod, 'exhaustive')),
         'broken': broken[:5],
+        'hangs': len(hangs),
     }
     if gen_info:
         coverage['source_derived'] = gen_info.get('info')
